@@ -22,5 +22,5 @@ CaseSeq ==
       worlds |-> LET W == SetToSeq(WorldsOf(S[i])) IN [j \in 1..Len(W) |-> WorldJson(W[j])]]]
 
 ASSUME ndJsonSerialize(IOEnv.OUT, CaseSeq)
-ASSUME PrintT(<<"GEN", "cases", Len(CaseSeq)>>)
+ASSUME PrintT("GEN " \o ToJson(<<"cases", Len(CaseSeq)>>))
 =============================================================================
